@@ -297,6 +297,19 @@ func (s *FakeAvahi) View() View {
 	return v
 }
 
+// groupsInGen: entry groups created on the current connection.
+func (s *FakeAvahi) groupsInGen() int {
+	s.mu.Lock()
+	defer s.mu.Unlock()
+	n := 0
+	for _, g := range s.groups {
+		if g.gen == s.gen {
+			n++
+		}
+	}
+	return n
+}
+
 func (s *FakeAvahi) Counters() (setupCalls, setupOK, browsers, groups int) {
 	s.mu.Lock()
 	defer s.mu.Unlock()
